@@ -150,3 +150,20 @@ theorem charge_esdtNFTUpdateAttributes (env : Env) (c : Call) (ctx : Ctx) (hg : 
     simpa using hgd
 
 end Esdt
+
+namespace Esdt
+
+/-- K1 (known finding, the point `charge_claimDeveloperRewards` excludes): claimed by a smart contract through an
+    asynchronous call, with both accounts on the executing shard, a successful ClaimDeveloperRewards returns GasRemaining 0
+    and no output account at all — the transfer that carried the remaining gas is dropped — so the whole provided gas is
+    consumed, whatever the schedule says -/
+theorem charge_claim_async_contract (env : Env) (c : Call) (ctx : Ctx)
+    (hsnd : present env.nshards env.self c.caller = true) (hdst : present env.nshards env.self c.rcv = true)
+    (hct : c.callType = 1) (hsc : isSmartContractAddress c.caller = true) :
+    Post (claimDeveloperRewards env c) ctx (fun out _ => out.gasRemaining = 0 ∧ out.outAccts = [] ∧ charge c.gas out = c.gas) := by
+  unfold claimDeveloperRewards
+  simp only [hsnd, hdst, hct, hsc, Bool.not_true, Bool.false_eq_true, if_false, if_true]
+  wp
+  all_goals simp [charge, fwd]
+
+end Esdt
